@@ -256,7 +256,10 @@ def run_actions(actions, phase, ctx):
                 s = _stream(st[:-7])
                 buf = getattr(s, 'buffer', None)
                 if buf is not None:
-                    buf.write(text.encode('utf-8', 'replace'))
+                    # tail_hex: bytes that are not valid in any text
+                    # encoding (what a test dumping binary data writes)
+                    buf.write(text.encode('utf-8', 'replace') +
+                              bytes.fromhex(a.get('tail_hex', '')))
                     try:
                         buf.flush()
                     except Exception:
